@@ -8,7 +8,9 @@ import numpy as np
 
 from symnp.array import HANDLERS, NP_OVERRIDES, handles, has_sym, kernel, lifted, sarr, symmax
 from symnp.core import And, Not, Or, Poly, Sym, SymBool, cur, lift
-from symnp.harness import Obligation, eq, implies
+from symnp.harness import Obligation, eq, implies, jsonable
+from props.common import Task
+import time
 from toqito.matrix_ops import tensor, unvec, vec, vectors_from_gram_matrix, vectors_to_gram_matrix
 from toqito.matrix_props import (commutant, has_same_dimension, is_anti_hermitian, is_circulant, is_commuting, is_density,
                                  is_diagonal, is_diagonally_dominant, is_hermitian, is_idempotent, is_identity,
@@ -16,7 +18,8 @@ from toqito.matrix_props import (commutant, has_same_dimension, is_anti_hermitia
                                  is_positive, is_positive_definite, is_positive_semidefinite, is_projection,
                                  is_pseudo_hermitian, is_pseudo_unitary, is_square, is_stochastic, is_symmetric,
                                  is_totally_positive, is_unitary, kp_norm, majorizes, spark, trace_norm)
-from toqito.state_props import is_ensemble, is_mixed, is_mutually_orthogonal, is_mutually_unbiased_basis, is_pure
+from toqito.state_props import (is_ensemble, is_mixed, is_mutually_orthogonal, is_mutually_unbiased_basis, is_pure,
+                                is_unextendible_product_basis)
 
 RTOL, ATOL = 1e-5, 1e-8
 
@@ -37,12 +40,14 @@ META = {
               "toqito/matrix_ops/vec.py", "toqito/matrix_ops/unvec.py", "toqito/matrix_ops/tensor.py",
               "toqito/matrix_ops/vectors_from_gram_matrix.py", "toqito/matrix_ops/vectors_to_gram_matrix.py",
               "toqito/state_props/is_pure.py", "toqito/state_props/is_mixed.py", "toqito/state_props/is_ensemble.py",
-              "toqito/state_props/is_mutually_orthogonal.py", "toqito/state_props/is_mutually_unbiased_basis.py"],
+              "toqito/state_props/is_mutually_orthogonal.py", "toqito/state_props/is_mutually_unbiased_basis.py",
+              "toqito/state_props/is_unextendible_product_basis.py"],
     "functions": ["toqito.matrix_props.is_*", "toqito.matrix_props.majorizes", "toqito.matrix_props.spark", "toqito.matrix_props.kp_norm",
                   "toqito.matrix_props.trace_norm", "toqito.matrix_props.commutant", "toqito.matrix_ops.vec", "toqito.matrix_ops.unvec",
                   "toqito.matrix_ops.tensor", "toqito.matrix_ops.vectors_from_gram_matrix", "toqito.matrix_ops.vectors_to_gram_matrix",
                   "toqito.state_props.is_pure", "toqito.state_props.is_mixed", "toqito.state_props.is_ensemble",
-                  "toqito.state_props.is_mutually_orthogonal", "toqito.state_props.is_mutually_unbiased_basis"],
+                  "toqito.state_props.is_mutually_orthogonal", "toqito.state_props.is_mutually_unbiased_basis",
+                  "toqito.state_props.is_unextendible_product_basis"],
     "explanation": "Bounded symbolic execution of the real predicates with every matrix entry a solver term (real or complex). For the "
                    "tolerance predicates z3 decides a two-sided band written with the harness's own residual of the defining equation "
                    "(own loops): all residual entries within atol/2 (1-norm of re/im) => True; some residual entry beyond "
@@ -71,7 +76,9 @@ META = {
                      "complex np.max = lexicographic maximum (registered from this module; used by is_pure only)",
                      "LAPACK kernels are functions of their argument (congruence); Cholesky contract L L^dagger = G where named", "z3 5.1.0"],
     "outside_claim": [
-        "is_unextendible_product_basis (rank / null-space search over partitions: data-dependent shapes, not encodable)",
+        "is_unextendible_product_basis on symbolic inputs (rank / null-space search over partitions: data-dependent shapes, not "
+        "encodable): decided on concrete Gaussian-integer product families only, where the solver decides the DEFINITION (QF_LRA "
+        "over all product vectors) and the real function supplies verdict and witness",
         "is_block_positive (sk_operator_norm: randomised iterative bounds + SDP)", "positive_semidefinite_rank (SDP feasibility per rank)",
         "commutant: dimension of the returned basis and its orthonormality (scipy null_space is data dependent; only 'every element "
         "commutes' is proved, under the contract M n = 0)",
@@ -1149,7 +1156,8 @@ def ob_mutually_orthogonal(k, d, kind, form, ket=False, B=100, m=1e-2):
 
 
 def ob_orthonormal(k, d, kind, form, B=100, m=1e-2, as_list=False):
-    cfg = {"vectors": k, "dim": d, "entries": kind, "form": form, "argument": "python list of 1-D arrays" if as_list else "2-D array"}
+    cfg = {"vectors": k, "dim": d, "entries": kind, "form": form,
+           "argument": {True: "python list of 1-D arrays", False: "2-D array", "columns": "python list of column vectors (d, 1)"}[as_list]}
     holder = {"pre": []}
 
     def build(b):
@@ -1165,6 +1173,8 @@ def ob_orthonormal(k, d, kind, form, B=100, m=1e-2, as_list=False):
 
     def call(i):
         V = tq(i["V"])
+        if as_list == "columns":          # the shape toqito.states.basis returns
+            return is_orthonormal([np.asarray(V[r]).reshape(-1, 1).view(type(V)) if isinstance(V, np.ndarray) else V[r] for r in range(k)])
         return is_orthonormal([V[r] for r in range(k)] if as_list else V)
 
     def oracle(i):
@@ -1418,7 +1428,11 @@ def exact_herm(A):
 
 
 def ob_pd(shape, kind):
+    """positive definite = Hermitian with a successful Cholesky kernel.  Band form: exactly Hermitian and Cholesky succeeds => True;
+    Hermiticity violated by a margin (entries bounded by 10), or exactly Hermitian and Cholesky fails => False.  Witnesses:
+    U D U^* in floating point (Hermitian only up to rounding, eigenvalues in [1, 2]) => True."""
     cfg = {"shape": list(shape), "entries": kind}
+    square = shape[0] == shape[1]
 
     def build(b):
         return {"A": b.array("A", shape, kind)}
@@ -1427,11 +1441,42 @@ def ob_pd(shape, kind):
         return is_positive_definite(tq(i["A"]))
 
     def oracle(i):
-        if shape[0] != shape[1]:
-            return False
-        return sb(exact_herm(i["A"])) & sb(chol_ok(tq(i["A"])))
-    return Obligation("is_positive_definite.exactly_hermitian_and_cholesky_kernel_succeeds", cfg, build, call, oracle, post=bool_post,
-                      neg=bool_neg, tv=False)
+        if not square:
+            return (False, True)
+        A = O(i["A"])
+        off = []
+        for r in range(shape[0]):
+            for c in range(shape[1]):
+                d = A[r, c] - (A[c, r].conjugate() if hasattr(A[c, r], "conjugate") else A[c, r])
+                d = lift(d)
+                off += [d.real > 1e-2, d.real < -1e-2, d.imag > 1e-2, d.imag < -1e-2]
+        eh = sb(exact_herm(i["A"]))
+        ck = sb(chol_ok(tq(i["A"])))
+        return eh & ck, Or(*off) | (eh & ~ck)
+
+    def pre(i):
+        return bounded([i["A"]], 10)
+
+    def witness():
+        if not square or shape[0] < 2:
+            return []
+        n = shape[0]
+        rng = np.random.default_rng(60 + n)
+        out = []
+        for _ in range(3):
+            U = np.linalg.qr(rng.normal(size=(n, n)) + (1j * rng.normal(size=(n, n)) if kind == "c" else 0))[0]
+            out.append({"A": U @ np.diag(np.linspace(1.0, 2.0, n)) @ U.conj().T})
+        return out
+
+    def post(res, exp, i):
+        A = i["A"]
+        if isinstance(A, np.ndarray) and A.dtype != object and square and A.shape[0] == A.shape[1]:
+            # numeric input that is Hermitian up to rounding with all eigenvalues >= 1/2: positive definite
+            if np.max(np.abs(A - A.conj().T)) < 1e-12 and np.linalg.eigvalsh((A + A.conj().T) / 2).min() > 0.5:
+                return bool(res) is True
+        return band_post(res, exp, i)
+    return Obligation("is_positive_definite.hermitian_with_successful_cholesky_true_else_false", cfg, build, call, oracle, post=post,
+                      neg=band_neg, assume=pre, valid=mk_valid(pre), tv=False, witness=witness)
 
 
 def ob_density(n, kind):
@@ -1792,14 +1837,16 @@ def ob_tensor_assoc(shapes, kind):
     return Obligation("tensor.kronecker_entries_associativity_and_list_forms", cfg, build, call, oracle)
 
 
-def ob_tensor_power(shape, kind, n):
+def ob_tensor_power(shape, kind, n, count_type="int"):
     cfg = {"shape": list(shape), "entries": kind, "power": n}
+    if count_type != "int":
+        cfg["count_given_as"] = count_type
 
     def build(b):
         return {"A": b.array("A", shape, kind)}
 
     def call(i):
-        return tensor(tq(i["A"]), n)
+        return tensor(tq(i["A"]), n if count_type == "int" else getattr(np, count_type)(n))
 
     def oracle(i):
         if n == 0:
@@ -1852,6 +1899,45 @@ def ob_gram_roundtrip(n, kind):
         return [chol_ok(tq(i["G"]))]
     return Obligation("vectors_from_gram_matrix.gram_of_returned_vectors_is_the_input", cfg, build, call, oracle, assume=pre,
                       valid=mk_valid(pre), contracts=("cholesky",), tv=False)
+
+
+def ob_gram_roundtrip_singular(n, r, kind):
+    """G = M^dagger M with M of shape (r, n), r < n: positive semidefinite and singular by construction, so Cholesky fails and the
+    code takes its eigendecomposition branch; the Gram matrix of the returned vectors must still be G.  Witnesses: Gram matrices
+    with a REPEATED non-zero eigenvalue (trine-type), where an eigen-solver for general matrices returns non-orthogonal vectors."""
+    cfg = {"n": n, "rank": r, "entries": kind, "gram": "M^dagger M, M of shape (rank, n)"}
+
+    def build(b):
+        M = b.array("M", (r, n), kind)
+        return {"G": lifted(mm(dag(M), M))}
+
+    def call(i):
+        import contextlib
+        import io
+        with contextlib.redirect_stdout(io.StringIO()):
+            vs = vectors_from_gram_matrix(tq(i["G"]))
+        return vectors_to_gram_matrix([np.asarray(v) if not has_sym(v) else v for v in vs])
+
+    def oracle(i):
+        return O(i["G"])
+
+    def pre(i):
+        return [~sb(chol_ok(tq(i["G"])))]
+
+    def witness():
+        out = []
+        rng = np.random.default_rng(4 + n)
+        Q = np.linalg.qr(rng.normal(size=(n, n)) + (1j * rng.normal(size=(n, n)) if kind == "c" else 0))[0]
+        D2 = np.diag([float(k + 1) for k in range(r)] + [0.0] * (n - r))     # distinct non-zero eigenvalues first
+        out.append({"G": Q @ D2 @ Q.conj().T, "witness_kind": "distinct non-zero eigenvalues"})
+        # n equiangular unit vectors in dimension n-1 (simplex / trine family): G = (n/(n-1)) (I - J/n), eigenvalues n/(n-1) (n-1 times), 0
+        G = (np.eye(n) - np.ones((n, n)) / n) * n / (n - 1)
+        out.append({"G": G.astype(complex if kind == "c" else float), "witness_kind": "repeated non-zero eigenvalue"})
+        D = np.diag([2.0] * r + [0.0] * (n - r))
+        out.append({"G": Q @ D @ Q.conj().T, "witness_kind": "repeated non-zero eigenvalue"})
+        return out
+    return Obligation("vectors_from_gram_matrix.gram_of_returned_vectors_is_the_input_singular_psd", cfg, build, call, oracle, assume=pre,
+                      tv=False, witness=witness, neg_control=False, dtype_variants=False)
 
 
 def ob_gram_nonsquare():
@@ -2014,9 +2100,203 @@ def ob_majorizes_matrices(sa, sb_, margin=1e-6, B=1000):
                       neg=band_neg, assume=pre, valid=mk_valid(pre), contracts=("svd",), tv=False, max_paths=64)
 
 
+class UpbDefinitionTask(Task):
+    """is_unextendible_product_basis on one concrete family of product vectors with Gaussian-integer local factors: the
+    DEFINITION is decided by the solver, not by sampling - 'there are non-zero x_1..x_m with <v_i, x_1 (x) .. (x) x_m> = 0 for
+    every i' is, for product v_i = (x)_p v_i^p, the QF_LRA formula  AND_i OR_p <v_i^p, x_p> = 0  AND_p OR_k x_p[k] != 0  over the
+    real and imaginary parts of the x_p (unsat = no product vector in the orthogonal complement, over all of C^d1 x .. x C^dm).
+    The real function runs on the instance with the real LAPACK kernels; its verdict must be the solver's, and a returned witness
+    must be a non-zero product vector orthogonal (Hermitian inner product) to every input.  Instances whose verdict the
+    definition does not fix (non-orthogonal sets without an extension) are not built."""
+    engine = "solver-decided definition (QF_LRA) vs the real function on a concrete instance"
+    weight = 2
+
+    def __init__(self, label, dims, factors, order=None, swap=False):
+        order = list(order) if order is not None else list(range(len(factors)))
+        super().__init__("is_unextendible_product_basis.verdict_and_witness_match_the_solver_decided_definition",
+                         {"instance": label, "dims": list(dims), "order": order, "parties_reversed": bool(swap)})
+        fs = [factors[i] for i in order]
+        if swap:
+            dims, fs = list(dims)[::-1], [list(f)[::-1] for f in fs]
+        self.dims = [int(d) for d in dims]
+        self.factors = [[np.asarray(v, dtype=complex) for v in f] for f in fs]
+
+    def vectors(self):
+        out = []
+        for f in self.factors:
+            v = np.array([1.0 + 0j])
+            for x in f:
+                v = np.kron(v, x)
+            out.append(v if any(np.iscomplex(x).any() for x in f) else v.real)
+        return out
+
+    def _solver(self, drop=None):
+        import z3
+        from sdpcap.embed import rv
+        m = len(self.dims)
+        xr = [[z3.Real(f"xr_{p}_{k}") for k in range(self.dims[p])] for p in range(m)]
+        xi = [[z3.Real(f"xi_{p}_{k}") for k in range(self.dims[p])] for p in range(m)]
+        cs = []
+        for i, f in enumerate(self.factors):
+            if i == drop:
+                continue
+            alts = []
+            for p in range(m):
+                # <v, x> = sum_k conj(v_k) x_k
+                re = sum((rv(float(f[p][k].real)) * xr[p][k] + rv(float(f[p][k].imag)) * xi[p][k] for k in range(self.dims[p])), z3.RealVal(0))
+                im = sum((rv(float(f[p][k].real)) * xi[p][k] - rv(float(f[p][k].imag)) * xr[p][k] for k in range(self.dims[p])), z3.RealVal(0))
+                alts.append(z3.And(re == 0, im == 0))
+            cs.append(z3.Or(*alts))
+        for p in range(m):
+            cs.append(z3.Or(*[z3.Or(xr[p][k] != 0, xi[p][k] != 0) for k in range(self.dims[p])]))
+        sol = z3.Solver()
+        sol.set("timeout", 60000)
+        sol.add(*cs)
+        t0 = time.time()
+        r = str(sol.check())
+        dt = time.time() - t0
+        w = None
+        if r == "sat":
+            mdl = sol.model()
+
+            def val(t):
+                q = mdl.eval(t, model_completion=True)
+                return float(Fraction(q.numerator_as_long(), q.denominator_as_long()))
+            w = np.array([1.0 + 0j])
+            for p in range(m):
+                w = np.kron(w, np.array([val(xr[p][k]) + 1j * val(xi[p][k]) for k in range(self.dims[p])]))
+        return r, w, dt
+
+    def _witness_ok(self, w, vecs):
+        """non-zero, orthogonal to every input, and of rank one across every cut party | rest"""
+        w = np.asarray(w).reshape(-1)
+        if w.shape[0] != int(np.prod(self.dims)) or np.linalg.norm(w) < 1e-9:
+            return "the witness is the zero vector or has the wrong length"
+        w = w / np.linalg.norm(w)
+        for i, v in enumerate(vecs):
+            if abs(np.vdot(v, w)) > 1e-7 * max(1.0, np.linalg.norm(v)):
+                return f"|<v_{i}, w>| = {abs(np.vdot(v, w)):.3e}"
+        t = w.reshape(self.dims)
+        for p in range(len(self.dims)):
+            sv = np.linalg.svd(np.moveaxis(t, p, 0).reshape(self.dims[p], -1), compute_uv=False)
+            if len(sv) > 1 and sv[1] > 1e-7:
+                return f"the witness is not a product vector across party {p} (second singular value {sv[1]:.3e})"
+        return None
+
+    def _orthogonal(self, vecs):
+        return all(abs(np.vdot(vecs[i], vecs[j])) < 1e-12 for i in range(len(vecs)) for j in range(i))
+
+    def _verdict(self, rec):
+        vecs = self.vectors()
+        r, w, dt = self._solver()
+        rec["queries"] += 1
+        rec["solver_s"] += dt
+        if r not in ("sat", "unsat"):
+            rec["notes"].append(f"solver: {r}")
+            return None
+        if r == "sat":
+            bad = self._witness_ok(w, vecs)
+            rec["neg_control"] = bad is None          # the solver's own model is a product vector orthogonal to every input
+            if bad is not None:
+                rec["notes"].append(f"solver model does not verify numerically: {bad}")
+                return None
+        else:
+            if not self._orthogonal(vecs):
+                rec["notes"].append("no product extension and not an orthogonal set: the definition does not fix the verdict")
+                return None
+            r2, _, dt2 = self._solver(drop=len(vecs) - 1)
+            rec["queries"] += 1
+            rec["solver_s"] += dt2
+            rec["neg_control"] = r2 == "sat"         # without the last vector the same formula is satisfiable
+        rec["reachable"] = True
+        try:
+            got = is_unextendible_product_basis([v.copy() for v in vecs], list(self.dims))
+        except Exception as e:  # noqa: BLE001
+            return {"source": "the real function raises on a set of product vectors (reproduced)", "inputs": {"vecs": jsonable(vecs), "dims": self.dims},
+                    "actual": f"{type(e).__name__}: {str(e)[:300]}", "expected": r == "unsat"}
+        ok, wit = got
+        if bool(ok) != (r == "unsat"):
+            return {"source": "verdict differs from the solver-decided definition", "inputs": {"vecs": jsonable(vecs), "dims": self.dims},
+                    "actual": bool(ok), "expected": r == "unsat", "solver_witness": jsonable(w) if w is not None else None}
+        if r == "sat":
+            bad = "no witness returned" if wit is None else self._witness_ok(wit, vecs)
+            if bad is not None:
+                return {"source": "returned witness is not a product vector orthogonal to every input", "inputs": {"vecs": jsonable(vecs), "dims": self.dims},
+                        "actual": bad, "returned_witness": jsonable(np.asarray(wit)) if wit is not None else None, "expected": "witness"}
+        elif wit is not None:
+            return {"source": "a witness is returned together with the verdict True", "inputs": {"vecs": jsonable(vecs), "dims": self.dims},
+                    "actual": jsonable(np.asarray(wit)), "expected": None}
+        return False
+
+    def _run(self, rec, seed):
+        v = self._verdict(rec)
+        if v is None:
+            return
+        if v is False:
+            rec["status"] = "discharged" if rec.get("neg_control") else "inconclusive"
+            return
+        rec["status"] = "violation"
+        rec["violation"] = v
+        rec["disagreements_checked"] = 1
+
+    def replay(self, rp):
+        rec = {"notes": [], "queries": 0, "solver_s": 0.0}
+        v = self._verdict(rec)
+        print(v if v else rec["notes"])
+        return v is False
+
+
+def upb_instances(T):
+    e = {2: [np.eye(2)[k] for k in range(2)], 3: [np.eye(3)[k] for k in range(3)]}
+    e0, e1 = e[2]
+    plus, minus = e0 + e1, e0 - e1
+    out = []
+    # 2 (x) 2, three vectors of which two share the SECOND factor: the only extension gives the shared factor's complement to
+    # party 1 - every order of the list and both orders of the parties (no UPB exists in 2 (x) n)
+    shared = [(e0, e0), (e1, e0), (plus, e1)]
+    generic = [(np.array([1, 2]), np.array([1, 1])), (np.array([3, 1]), np.array([1, 1])), (np.array([2, -1]), np.array([1, 3]))]
+    cplx = [(np.array([1, 1j]), np.array([2, 1j])), (np.array([1, -1j]), np.array([2, 1j])), (np.array([1 + 1j, 2]), np.array([1j, -2]))]
+    for label, fam in [("orthogonal, two vectors share the second factor", shared), ("non-orthogonal, two vectors share the second factor", generic),
+                       ("complex, two vectors share the second factor", cplx)]:
+        orders = list(itertools.permutations(range(3))) if (T or fam is shared) else [(0, 1, 2), (2, 0, 1)]
+        for order in orders:
+            for swap in (False, True):
+                out.append(UpbDefinitionTask(label, [2, 2], fam, order, swap))
+    out.append(UpbDefinitionTask("a single product vector (fewer vectors than parties)", [2, 2], [(plus, e1)]))
+    out.append(UpbDefinitionTask("two orthogonal product vectors", [2, 2], [(e0, plus), (e1, minus)]))
+    # 3 (x) 3 Tiles (unnormalised): a UPB; without any one vector it is extendible
+    z0, z1, z2 = e[3]
+    tiles = [(z0, z0 - z1), (z2, z1 - z2), (z0 - z1, z2), (z1 - z2, z0), (z0 + z1 + z2, z0 + z1 + z2)]
+    out.append(UpbDefinitionTask("Tiles", [3, 3], tiles))
+    out.append(UpbDefinitionTask("Tiles", [3, 3], tiles, swap=True))
+    out.append(UpbDefinitionTask("Tiles", [3, 3], tiles, order=(4, 2, 0, 3, 1)))
+    for k in range(5) if T else (0, 4):
+        out.append(UpbDefinitionTask(f"Tiles without vector {k}", [3, 3], [t for i, t in enumerate(tiles) if i != k]))
+    # 3 (x) 3, five vectors: three span only two dimensions on party 1, two share the party-0 factor
+    five = [(z0, z0), (z1, z1), (z0 + z1, z0 + z1), (z2, z2), (z2, z0 - z1)]
+    for swap in (False, True):
+        out.append(UpbDefinitionTask("five vectors, three inside a two-dimensional local subspace", [3, 3], five, swap=swap))
+        if T:
+            for order in [(4, 3, 2, 1, 0), (2, 4, 0, 3, 1)]:
+                out.append(UpbDefinitionTask("five vectors, three inside a two-dimensional local subspace", [3, 3], five, order, swap))
+    # 2 (x) 2 (x) 2 Shifts (unnormalised): a UPB; without one vector it is extendible
+    shifts = [(e0, e0, e0), (plus, e1, minus), (e1, minus, plus), (minus, plus, e1)]
+    out.append(UpbDefinitionTask("Shifts", [2, 2, 2], shifts))
+    out.append(UpbDefinitionTask("Shifts", [2, 2, 2], shifts, order=(3, 1, 0, 2)))
+    for k in range(4) if T else (1,):
+        out.append(UpbDefinitionTask(f"Shifts without vector {k}", [2, 2, 2], [t for i, t in enumerate(shifts) if i != k]))
+    # unequal local dimensions
+    a3, b3, c3 = np.array([1, 2, -1]), np.array([2, 0, 1]), np.array([1, 1, 1])
+    uneq = [(np.array([1, 2]), a3), (np.array([3, 1]), b3), (np.array([2, -1]), c3)]
+    for swap in (False, True):
+        out.append(UpbDefinitionTask("three product vectors, unequal local dimensions", [2, 3], uneq, swap=swap))
+    out.append(UpbDefinitionTask("orthogonal product vectors, unequal local dimensions", [2, 3], [(e0, z0), (e0, z1), (e1, z0 + z2), (e1, z0 - z2)]))
+    return out
+
+
 def obligations(tier):
     T = tier == "thorough"
-    obs = []
+    obs = list(upb_instances(T))
     sizes = [1, 2, 3] + ([4, 5] if T else [])
     rect = [(1, 2), (2, 3), (3, 2)] + ([(2, 1), (3, 4), (1, 4), (5, 6)] if T else [])
     linear = ("is_hermitian", "is_anti_hermitian", "is_symmetric", "is_identity", "is_circulant")
@@ -2119,6 +2399,9 @@ def obligations(tier):
                 obs.append(ob_mutually_orthogonal(k, d, kind, "exact"))
                 obs.append(ob_orthonormal(k, d, kind, "exact_unitary_rows"))
     obs.append(ob_orthonormal(2, 2, "c", "band", as_list=True))     # the documented argument type: "a list of np.ndarray"
+    obs.append(ob_orthonormal(2, 2, "c", "band", as_list="columns"))
+    obs.append(ob_orthonormal(2, 3, "c", "margin", as_list="columns"))
+    obs.append(ob_orthonormal(2, 2, "c", "exact_unitary_rows", as_list="columns"))
     obs.append(ob_mutually_orthogonal(2, 2, "c", "band", ket=True))
     obs.append(ob_mutually_orthogonal(3, 3, "c", "exact", ket=True))
     obs.append(ob_mutually_orthogonal(1, 2, "c", "band"))
@@ -2200,6 +2483,9 @@ def obligations(tier):
                 continue
             for kind in ("r", "c"):
                 obs.append(ob_tensor_power(shape, kind, n))
+                if kind == "c" and n in (2, 3):      # the count as a numpy integer (what array shapes and np.arange hand out)
+                    obs.append(ob_tensor_power(shape, kind, n, "int64"))
+                    obs.append(ob_tensor_power(shape, kind, n, "int32"))
     for k, d in [(1, 2), (2, 2), (2, 3), (3, 2), (3, 3)] + ([(4, 3), (3, 4)] if T else []):
         for kind in ("r", "c"):
             obs.append(ob_gram(k, d, kind))
@@ -2210,6 +2496,8 @@ def obligations(tier):
         for kind in ("r", "c"):
             obs.append(ob_gram_roundtrip(n, kind))
     obs.append(ob_gram_nonsquare())
+    for n, r, kind in [(3, 2, "r"), (3, 2, "c"), (4, 2, "c")] + ([(4, 3, "r"), (5, 3, "c")] if T else []):
+        obs.append(ob_gram_roundtrip_singular(n, r, kind))
     for dim, ngen, k in [(2, 0, 2), (2, 1, 2), (2, 2, 1), (3, 0, 3), (3, 2, 1), (2, 3, 2)] + ([(3, 1, 5), (4, 0, 4), (4, 2, 2)] if T else []):
         for kind in ("r", "c"):
             obs.append(ob_commutant(dim, ngen, kind, k))
